@@ -197,12 +197,50 @@ func pipeSource(data []byte, want result, label string) {
 	}
 }
 
+// offsetSources: the file sits behind a prefix in a seekable source that is
+// positioned at the file's first byte when it is handed over (a bytes.Reader,
+// an io.SectionReader inside a larger one, an os.File).
+func offsetSources(data []byte, want result, label string) {
+	prefix := []byte("RIFF....RMIDdata....garbage")
+	all := append(append([]byte{}, prefix...), data...)
+	try := func(kind string, src io.Reader) {
+		var s *smf.SMF
+		var err error
+		c := engine.Catch(func() { s, err = smf.ReadFrom(src) })
+		got := summarize(s, err, c)
+		ctx.Eval()
+		if reflect.DeepEqual(got, want) {
+			return
+		}
+		sig := "offset-source:" + kind + ":" + want.kind + "->" + got.kind
+		if got.kind == "panic" {
+			sig = got.sig + ":offset-source:" + kind
+		}
+		if ctx.SigCount(sig) < 10 {
+			ctx.Violation(sig, map[string]interface{}{"kind": "offset-source", "file": engine.Hex(data), "family": label,
+				"what": fmt.Sprintf("reading from memory gives %s; from a %s positioned behind a %d-byte prefix it gives %s", want.kind, kind, len(prefix), got.kind)})
+		}
+	}
+	br := bytes.NewReader(all)
+	br.Seek(int64(len(prefix)), io.SeekStart)
+	try("bytes.Reader", br)
+	try("io.SectionReader", io.NewSectionReader(bytes.NewReader(all), int64(len(prefix)), int64(len(data))))
+	if f, err := os.CreateTemp(os.Getenv("VERIF_WORK"), "c09-offset-*.bin"); err == nil {
+		f.Write(all)
+		f.Seek(int64(len(prefix)), io.SeekStart)
+		try("os.File", f)
+		f.Close()
+		os.Remove(f.Name())
+	}
+}
+
 func fragmentations(data []byte, label string, pairs, triples bool) {
 	want := readMem(data)
 	ctx.Add("files", 1)
 	zeroReads(data, want, label)
 	if len(data) < 60000 {
 		pipeSource(data, want, label)
+		offsetSources(data, want, label)
 	}
 	for _, eof := range []bool{false, true} {
 		one(data, want, nil, 0, eof, label)
@@ -417,6 +455,10 @@ func replay() {
 		}
 	}
 	want := readMem(data)
+	if m["kind"] == "offset-source" {
+		offsetSources(data, want, "replay")
+		ctx.Finish("replay")
+	}
 	if m["kind"] == "pipe" {
 		pipeSource(data, want, "replay")
 		ctx.Finish("replay")
